@@ -857,7 +857,7 @@ RULE_COMMON = (
     "path of all_pairs / multi_source). ")
 
 C04 = props.register(SpProp(
-    "C04", "c04", 150, 1500,
+    "C04", "c04", 150, 6000,
     RULE_COMMON +
     "Weights from {1,2,3,4}, {1,1,2} (many ties), {0,0,1,2} (zero weights: distances and path soundness only) or "
     "unweighted (hop count). Calls: all_pairs, multi_source (shuffled sources, a duplicate) and single_source from "
@@ -870,26 +870,31 @@ C04 = props.register(SpProp(
     "distinct = distinct case text"))
 
 C04.manifest = {
-    "text": "Verified checker route. Proved in Coq for every weighted adjacency, source, vector and answer (induction on "
-            "walks / closure sweeps / enumeration fuel, no axioms): check_dist g s d = true implies d is exactly the "
-            "shortest-distance function from s (finite value = is_dist, None = unreachable) with no sign hypothesis; "
-            "check_result = true implies the answer of one search call satisfies the whole statement of C04 for that "
-            "call (reported iff reachable [within the cutoff], exact distances, every path a shortest path from the "
-            "source to the node, first_only => exactly one, positive costs and first_only=false => a duplicate-free "
-            "enumeration of ALL shortest paths — via an enumeration over the shortest-path DAG proved sound and "
-            "complete). The faithful Coq transcription of dijkstra / dijkstra_basic / the three entry points is "
-            "evaluated on every generated case, the checkers are evaluated on its answers (flag must be 1), and its "
-            "answers are compared with the implementation's.",
-    "note": "Validated per generated case, not proved for all inputs: that the transcribed loop always produces an "
-            "answer accepted by the checkers (the loop-invariant proof J1-J6 of DESIGN.md Appendix B is not done). "
-            "The adjacency the theorems speak about is successors_vec (its agreement with the edge store is C03's "
-            "subject; here the oracle recomputes from get_all_edges). Integer weights (f64 sums exact). Trusted: Coq "
-            "kernel + vm_compute, harness/printers/diff. Axioms: none.",
-    "technique": "Coq-verified checker + faithful executable model + differential correspondence + reference oracle",
+    "text": "Proved in Coq, unbounded and axiom-free, about the faithful transcription of dijkstra.rs (Model/Dijkstra.v: "
+            "dijkstra with dist/seen/paths/fringe/count, target exit, cutoff skip, ContradictoryPaths, first_only; "
+            "dijkstra_basic; heap = extract-max of the transcribed Ord): for EVERY graph state with a well-formed "
+            "adjacency, every source index, every (target, cutoff>=0, first_only, with_paths) and non-negative costs "
+            "(or hop count), dijkstra returns Ok - no panic, no fuel exhaustion, no ContradictoryPaths - and the answer "
+            "satisfies the whole statement: reported iff reachable (within the cutoff / the target), exact shortest "
+            "distances, every returned path a shortest path from the source to its node, exactly one path when "
+            "first_only, and for positive costs a duplicate-free list of ALL shortest paths "
+            "(C04_model_dijkstra_total; loop invariants over the pop loop and the row fold + feasible potentials). "
+            "Same for the distance-only fast path (C04_model_fast_path_total). Independently, verified checkers "
+            "(check_dist, check_result, the shortest-path-DAG enumeration) are proved sound/complete w.r.t. the spec "
+            "and evaluated on the model's answer of every generated call. The model is tied to the code by the "
+            "per-call correspondence (outcome, nodes, distances, path sets) and a reference oracle.",
+    "note": "Not proved, validated per generated case: the index->name translation of the entry points "
+            "(single_source / multi_source / all_pairs plumbing; compared per call with the implementation), and that "
+            "successors_vec agrees with the edge store (C03's subject; the oracle recomputes distances and all "
+            "shortest paths from the implementation's get_all_edges). The hypotheses of the theorems (well-formed "
+            "adjacency, non-negative costs) are evaluated on every generated graph (observation 46). Integer weights "
+            "(exact in binary64). Trusted: Coq kernel + vm_compute, harness/printers/diff. Axioms: none.",
+    "technique": "Coq proof of the transcribed algorithm (loop invariants) + verified checkers + differential "
+                 "correspondence + reference oracle",
 }
 
 C08 = props.register(SpProp(
-    "C08", "c08", 90, 900,
+    "C08", "c08", 90, 3000,
     RULE_COMMON +
     "Positive weights {1,2,3,4} / {1,1,2} or unweighted. Calls: the unrestricted answer from all three entry points "
     "(full algorithm and distance-only fast path) for every source; for 3 sources the full product target in {None, a "
@@ -902,16 +907,21 @@ C08 = props.register(SpProp(
     "non-trivial as C04"))
 
 C08.manifest = {
-    "text": "Proved (unbounded, axiom-free): the per-call statement result_ok (which contains the option laws: a target "
-            "restricts to a subset with unchanged values and keeps the target; a cutoff c gives exactly the entries "
-            "with distance <= c; with_paths=false leaves paths empty; first_only returns one of the shortest paths) "
-            "follows from the executable check_result, which is evaluated on the model's answer of every generated "
-            "call; spec-level graph theory: uniqueness of the distance, triangle inequality, symmetry on a symmetric "
-            "adjacency, optimal substructure. On the model: the three entry points call the same per-source function "
-            "(theorems C08_all_pairs_per_source / C08_multi_per_source).",
-    "note": "The option laws are checked per generated call against distances certified by the verified checker, not "
-            "proved for the transcribed loop in general; agreement of the distance-only fast path with the full "
-            "algorithm is checked per case (model flag + correspondence + metamorphic oracle), not by theorem. "
-            "Axioms: none.",
-    "technique": "Coq-verified checker + spec-level theorems + differential correspondence + metamorphic oracle",
+    "text": "Proved in Coq (unbounded, axiom-free) about the transcribed algorithm: every answer of dijkstra with options "
+            "is the restriction of the unrestricted answer - same distances, within the cutoff, exactly the entries "
+            "with distance <= cutoff when there is no target, the target's entry when there is one "
+            "(C08_model_options_restrict); the distance-only fast path and the full algorithm report the same nodes and "
+            "distances (C08_model_fast_path_agrees); with_paths=false leaves paths empty, first_only returns exactly "
+            "one shortest path, otherwise all of them (part of C04_model_dijkstra_total / result_ok); "
+            "get_all_shortest_paths_involving keeps exactly the all-pairs entries with a path having x strictly inside "
+            "(C08_model_involving_filter). Spec level: options_restrict_never_change between any two answers meeting "
+            "the per-call statement, cutoff_exact, target_reported, uniqueness of the distance, triangle inequality, "
+            "symmetry on a symmetric adjacency, optimal substructure. The metamorphic relations are also checked on "
+            "the implementation's own answers by the oracle.",
+    "note": "Validated per generated case, not proved: agreement of the three entry points at the level of names "
+            "(all_pairs / multi_source / single_source call the same per-source function in the model; their outputs "
+            "are compared per call with the implementation and with each other by the oracle); symmetry of the "
+            "adjacency of an undirected graph (C03's subject). Axioms: none.",
+    "technique": "Coq proof of the transcribed algorithm + spec-level theorems + differential correspondence + "
+                 "metamorphic oracle",
 }
